@@ -9,6 +9,11 @@ mod prec;
 mod paths;
 mod pred;
 mod graphbfs;
+#[cfg(erg_verif)]
+mod sched_run;
+#[cfg(erg_verif)]
+mod frame;
+mod repl_history;
 
 fn main() {
     let args: Vec<String> = std::env::args().collect();
@@ -27,6 +32,17 @@ fn main() {
         "paths" => paths::main(rest),
         "pred" => pred::main(rest),
         "graph-bfs" => graphbfs::main(rest),
+        "repl-history" => repl_history::main(rest),
+        #[cfg(erg_verif)]
+        "frame" => frame::main(rest),
+        #[cfg(erg_verif)]
+        "frame-encode" => frame::encode_main(rest),
+        #[cfg(erg_verif)]
+        "frame-decode" => frame::decode_main(rest),
+        #[cfg(erg_verif)]
+        "sched-run" => sched_run::main(rest),
+        #[cfg(erg_verif)]
+        "sched-serve" => sched_run::serve(rest),
         other => {
             eprintln!("unknown engine {other}");
             std::process::exit(2);
